@@ -24,3 +24,11 @@ func SetDelay(at int, starve bool) { runtime.VfxSetDelay(uint32(at), starve) }
 
 // DelayCount returns the number of such decisions since SetDelay.
 func DelayCount() int { return int(runtime.VfxDelayCount()) }
+
+// SetSelect arms one select deviation: at the at-th select from now that finds
+// more than one case ready, the case the fixed poll order would take is tried
+// last. at=0 disarms. The count restarts.
+func SetSelect(at int) { runtime.VfxSetSelect(uint32(at)) }
+
+// SelectCount returns the number of such selects since SetSelect.
+func SelectCount() int { return int(runtime.VfxSelectCount()) }
